@@ -130,6 +130,7 @@ func TestC10(t *testing.T) {
 		return
 	}
 	avoid := synAvoidFor(c)
+	c.SetRecheck(func(k any) []pbt.Violation { return evalC10(k.(c10Case)) })
 	c.ReplayKnown(t, func(raw json.RawMessage) []pbt.Violation {
 		var k c10Case
 		_ = json.Unmarshal(raw, &k)
@@ -491,6 +492,7 @@ func TestC09(t *testing.T) {
 		return
 	}
 	avoid := synAvoidFor(c)
+	c.SetRecheck(func(k any) []pbt.Violation { return evalC09(k.(c09Case)) })
 	c.ReplayKnown(t, func(raw json.RawMessage) []pbt.Violation {
 		var k c09Case
 		_ = json.Unmarshal(raw, &k)
